@@ -46,7 +46,11 @@ func busy() int {
 			st = st[:j]
 		}
 		switch st {
-		case "running", "runnable", "syscall":
+		case "chan receive", "chan send", "select", "select (no cases)", "sync.Mutex.Lock", "sync.RWMutex.RLock", "sync.RWMutex.Lock",
+			"sync.Cond.Wait", "sync.WaitGroup.Wait", "semacquire", "IO wait", "sleep", "chan receive (nil chan)", "chan send (nil chan)":
+			// parked until somebody else acts
+		default:
+			// running, runnable, syscall, preempted, GC assist wait, copystack, ...: will go on by itself
 			n++
 		}
 	}
@@ -154,6 +158,23 @@ func runConc(t *testing.T, out *vh.Out, n *node, s scenario, rep int) {
 			out.Emit(M{"e": "noquiesce", "scn": scn, "at": "release"})
 			return
 		}
+		pendingOther := func() bool {
+			for _, c := range calls {
+				if !c.done.Load() && gets(c.op, "o") != "next" {
+					return true
+				}
+			}
+			return false
+		}
+		if pendingOther() {
+			// a call other than Next looks blocked: before saying so give it real time (the verdict "never returns" must not
+			// hinge on the goroutine dump); a call that completes in the grace period only shows that the dump was read too early
+			time.Sleep(200 * time.Millisecond)
+			quiesce(func() bool { return true })
+			if !pendingOther() {
+				out.Emit(M{"e": "release", "scn": scn, "round": r + 1, "slow": true})
+			}
+		}
 		blocked := []int{}
 		for _, c := range calls {
 			if !c.done.Load() {
@@ -161,19 +182,23 @@ func runConc(t *testing.T, out *vh.Out, n *node, s scenario, rep int) {
 			}
 		}
 		out.Emit(M{"e": "quiet", "scn": scn, "blocked": blocked})
-		stuck := false
+		if pendingOther() {
+			// nothing more can be done with this node: stop it (that frees the callers) and say so
+			n.stop()
+			fin := make(chan struct{})
+			go func() { wg.Wait(); close(fin) }()
+			select {
+			case <-fin:
+			case <-time.After(5 * time.Second):
+			}
+			out.Emit(M{"e": "abandoned", "scn": scn})
+			return
+		}
 		for _, c := range calls {
 			if !c.done.Load() {
-				if gets(c.op, "o") != "next" {
-					stuck = true // a call other than Next never returned: the line above says so; nothing more can be done
-					continue
-				}
 				out.Emit(M{"e": "ctx", "scn": scn, "id": c.id})
 				c.cancel()
 			}
-		}
-		if stuck {
-			return
 		}
 		wg.Wait()
 		for _, c := range calls {
